@@ -323,3 +323,30 @@ add(
     H("dir_entry::verif::upper_ascii_agree", ["C19"],
       "same in the build without the unicode feature", "all 128 ASCII values", build="nounicode"),
 )
+
+# ------------------------------------------------------------------ dir.rs: long names (both builds)
+LFN_LENS = (("len1", 1), ("len5", 1), ("len12", 1), ("len13", 1), ("len14", 2), ("len26", 2), ("len27", 3), ("len39", 3))
+for build in ("alloc", "noalloc"):
+    for nm, cnt in LFN_LENS:
+        quick = nm in ("len1", "len13", "len14", "len26")
+        add(H("dir::verif::lfn_generate_and_decode_" + nm, ["C03", "C04", "C15", "C19"],
+              "LfnEntriesGenerator slots parsed independently (count, order bytes with 0x40 on the first, attr 0x0F, zero type/cluster, checksum, "
+              "terminator + 0xFFFF padding, units at the specification's offsets) and LongNameBuilder decodes them back to the identical units",
+              "name length %s (%d slot(s)) concrete; all units, checksum, short name symbolic; build %s" % (nm[3:], cnt, build),
+              build=build, tier="quick" if quick else "thorough", timeout=900))
+add(
+    H("dir::verif::lnb_step_inductive", ["C17", "C19"],
+      "LongNameBuilder::process from ANY state satisfying the invariant (index <= k <= 20, len = 13k, index 0 <=> empty) with ANY slot: no panic / "
+      "out-of-bounds, invariant re-established (covers runs of any length by induction)",
+      "fixed-buffer build; arbitrary 260-unit buffer, arbitrary slot; unwind 264", build="noalloc"),
+    H("dir::verif::lnb_finish_bounded", ["C17", "C19"],
+      "finishing from ANY invariant state: name <= 255 units; empty unless the run was complete (index 1) and the checksum matched",
+      "fixed-buffer build; arbitrary state and short name", build="noalloc"),
+    H("dir::verif::lnb_sequences_2", ["C17", "C19", "C08"],
+      "ANY 2 long-name slots (orders 0..3 with/without 0x40, any checksum/units) + short entry vs. an independent definition of a well-formed run: "
+      "broken => empty name (short-name fallback); well-formed => exactly the run's units, only trailing 0/0xFFFF stripped",
+      "fixed-buffer build", build="noalloc", timeout=900),
+    H("dir::verif::lnb_sequences_3", ["C17", "C19", "C08"],
+      "same with 3 slots", "fixed-buffer build", build="noalloc", timeout=900),
+    twin("dir::verif::twin_lnb_always_yields_name", ["C17", "C19"], "claims a one-slot run is always accepted", "len() > 0", build="noalloc"),
+)
